@@ -1,3 +1,115 @@
-From Mxj Require Import Run.RunSeq.
-Example c04_smoke : mismatches [] = [].
+(* C04 - MapSeq round trip preserves order, attributes, comments and instructions.
+   Statements only; proofs are in Proofs/C04*.v.
+   Models: Model/SeqDec.v (xmlSeqToMapParser over RawToken lists), Model/SeqEnc.v (MapSeq.Xml /
+   XmlIndent / mapToXmlSeqIndent / elemListSeq.Less / BeautifyXml); specification: Spec/SeqSpec.v. *)
+From Coq Require Import Permutation Sorting.Sorted.
+From Mxj Require Import Spec.SeqSpec Proofs.C04Sort Proofs.C04Map Proofs.C04P.
+
+(* The round trip, for every document of the domain in which a text run stands alone in its
+   element (no size or depth bound; any interleaving of equally and differently named siblings;
+   prefixed names; xmlns attributes; <= 1 comment, directive, PI per element at any position;
+   any values when XMLEscapeChars(true) is set, values free of the five specials otherwise):
+   NewMapXmlSeq succeeds with m; MapSeq.Xml, MapSeq.XmlIndent and BeautifyXml produce the same items;
+   and for EVERY whitespace inserted at element boundaries (every blank prefix / indent) the
+   normalised RawToken stream of the output equals the normalised RawToken stream of the document:
+   same names (with prefix) in the same order, same attributes in the same order with the same
+   values, same text, same comments / directives / PIs in the same positions. *)
+Theorem seq_roundtrip_partial :
+  forall (pf : str -> option flt) (skip : str -> bool) (esc : bool) (d : node),
+    dom04_alone (seq_o esc) d = true ->
+    exists m its,
+      seq_decode pf skip (seq_o esc) false (rawtoks_of d) TermEOF = Ok m /\
+      seq_encode (seq_o esc) m = Ok its /\
+      seq_encode_indent (seq_o esc) m = Ok its /\
+      beautify_items pf skip (seq_o esc) (rawtoks_of d) TermEOF = Ok its /\
+      forall ws, normalize (rawtoks_of_items (insert_ws ws its)) = normalize (map rt_of_tok (rawtoks_of d)).
+Proof. exact roundtrip_alone. Qed.
+Print Assumptions seq_roundtrip_partial.
+
+(* NOT PROVED: seq_roundtrip, the same statement under [dom04] (text may also PRECEDE the child
+   elements, as the property's quantifier allows).  It is FALSE of the faithful model, hence of the
+   code: witness below; recorded as finding key=text-before-children-panics. *)
+Theorem seq_roundtrip_refuted :
+  exists d, dom04 (seq_o true) d = true /\
+    exists m, seq_decode (fun _ => None) (fun _ => false) (seq_o true) false (rawtoks_of d) TermEOF = Ok m /\
+              seq_encode (seq_o true) m = Panic /\ seq_encode_indent (seq_o true) m = Panic.
+Proof. exact roundtrip_refuted. Qed.
+Print Assumptions seq_roundtrip_refuted.
+
+(* Key lemma: sort.Sort with elemListSeq.Less returns the entries in increasing sequence-number
+   order - the document order - for EVERY order [l] in which the Go map iteration presents them,
+   provided the numbers are pairwise distinct (strictly increasing along [e]) and every value is a map. *)
+Theorem sort_by_seq_recovers_order :
+  forall (A : Type) (o : opts) (val : A -> value) (l e : list A),
+    Permutation l e ->
+    StronglySorted (fun a b => (seq_num o (val a) < seq_num o (val b))%Z) e ->
+    forallb (fun x => is_map (val x)) e = true ->
+    seq_sort o val l = Ok e.
+Proof. exact (@seq_sort_recovers). Qed.
+Print Assumptions sort_by_seq_recovers_order.
+
+Theorem sort_by_seq_order_independent :
+  forall (A : Type) (key : A -> Z) (l l' e : list A),
+    Permutation l e -> Permutation l' e ->
+    StronglySorted (fun a b => (key a < key b)%Z) e ->
+    isort key l = isort key l'.
+Proof. exact (@isort_perm_invariant). Qed.
+Print Assumptions sort_by_seq_order_independent.
+
+(* Attributes come back in their original order with their (escaped) values, whatever the order of
+   the "#attr" map the decoder built *)
+Theorem attributes_in_original_order :
+  forall pf skip (e : bool) (a : list xattr) (m rest : entries),
+    nodup_keys (map (fun at_ => xfull (aname at_)) a) = true ->
+    Permutation m (seq_attr_entries pf skip (seq_o e) false a) ->
+    sattrs (seq_o e) ((attrK (seq_o e), VMap m) :: rest)
+    = Ok (true, map (fun at_ => (xfull (aname at_), esc (seq_o e) (avalue at_))) a).
+Proof. exact attrs_original_order. Qed.
+Print Assumptions attributes_in_original_order.
+
+(* BeautifyXml = XmlIndent after NewMapXmlSeq: the model composition, definitionally *)
+Theorem beautify_is_indent_after_decode :
+  forall pf skip o ts tm,
+    beautify_items pf skip o ts tm = bind (seq_decode pf skip o false ts tm) (seq_encode_indent o).
+Proof. intros. reflexivity. Qed.
+Print Assumptions beautify_is_indent_after_decode.
+
+(* On the proved sub-domain the decoder's output never makes an encoder panic (for C15);
+   outside it, it does: seq_roundtrip_refuted. *)
+Theorem seq_encode_no_panic_on_decoded :
+  forall pf skip e d,
+    dom04_alone (seq_o e) d = true ->
+    exists m, seq_decode pf skip (seq_o e) false (rawtoks_of d) TermEOF = Ok m /\
+              seq_encode (seq_o e) m <> Panic /\ seq_encode_indent (seq_o e) m <> Panic.
+Proof. exact encode_total_alone. Qed.
+Print Assumptions seq_encode_no_panic_on_decoded.
+
+(* ---------------- non-vacuity ---------------- *)
+(* example_doc (Proofs/C04P.v): prefixed root with an xmlns attribute and values with specials, children
+   a, comment, b, PI, a, directive, ns:c - it is in the domain, and these are the bytes the model writes *)
+Example c04_example_in_domain : dom04_alone (seq_o true) example_doc = true.
+Proof. vm_compute. reflexivity. Qed.
+
+Example c04_example_roundtrip :
+  match seq_decode (fun _ => None) (fun _ => false) (seq_o true) false (rawtoks_of example_doc) TermEOF with
+  | Ok m => match seq_encode (seq_o true) m with
+            | Ok its => semit its
+            | _ => []
+            end
+  | _ => []
+  end
+  = s "<ns:doc xmlns:ns=""urn:x"" id=""&lt;&amp;&gt;"" ns:k=""it&apos;s""><a>one</a><!-- note --><b z=""1"" a=""2""/><?pi data?><a>a&lt;b</a><!D x><ns:c><a/><b>q&quot;q</b></ns:c></ns:doc>".
+Proof. vm_compute. reflexivity. Qed.
+
+(* the sort lemma's hypotheses are met by a shuffled a,b,a with sequence numbers 2,0,1 *)
+Example c04_sort_example :
+  seq_sort opts0 (fun kv : str * value => snd kv)
+    [(s "a", VMap [(s "#seq", VInt 2)]); (s "a", VMap [(s "#seq", VInt 0)]); (s "b", VMap [(s "#seq", VInt 1)])]
+  = Ok [(s "a", VMap [(s "#seq", VInt 0)]); (s "b", VMap [(s "#seq", VInt 1)]); (s "a", VMap [(s "#seq", VInt 2)])].
+Proof. vm_compute. reflexivity. Qed.
+
+(* the witness of the refutation is the document <a>text<b/></a> *)
+Example c04_refutation_witness :
+  map rt_of_tok (rawtoks_of witness_text_before_child)
+  = [RStart (s "a") []; RChar (s "text"); RStart (s "b") []; REnd (s "b"); REnd (s "a")].
 Proof. reflexivity. Qed.
